@@ -197,7 +197,53 @@ func ruleC17PreferredFirst(c *Ctx) {
 				c.ok("kms-v1.sortClients/less", u.ipos(i), "less(i,j): false for (other, preferred), true for (preferred, other)")
 			}
 		})
-		if n != 1 {
+		if n == 0 {
+			// no sort: an explicit move-to-front — element 0 is written only where the element moved there is known to be
+			// the preferred region's client
+			stores, bad := 0, ""
+			allInstrs(sc, func(i ssa.Instruction) {
+				st, ok := i.(*ssa.Store)
+				if !ok {
+					return
+				}
+				ia, isIA := st.Addr.(*ssa.IndexAddr)
+				if !isIA {
+					return
+				}
+				k, isC := constOf(ia.Index)
+				if !isC || k.ExactString() != "0" {
+					return
+				}
+				if _, isP := resolve(ia.X).(*ssa.Parameter); !isP {
+					return
+				}
+				stores++
+				known := false
+				for _, fct := range factsAt(i.Block()) {
+					bo, isB := fct.V.(*ssa.BinOp)
+					if !isB || (bo.Op != token.EQL && bo.Op != token.NEQ) || (bo.Op == token.EQL) != fct.True {
+						continue
+					}
+					px, py := trimAddr(accessPath(bo.X)), trimAddr(accessPath(bo.Y))
+					_, xp := resolve(bo.X).(*ssa.Parameter)
+					_, yp := resolve(bo.Y).(*ssa.Parameter)
+					if (strings.HasSuffix(px, ".Region") && yp) || (strings.HasSuffix(py, ".Region") && xp) {
+						known = true
+					}
+				}
+				if !known {
+					bad = u.ipos(i)
+				}
+			})
+			switch {
+			case stores == 0:
+				c.bad("kms-v1.sortClients/sort", u.pos(sc.Pos()), "sortClients neither sorts nor moves the preferred region's client to the front")
+			case bad != "":
+				c.bad("kms-v1.sortClients/sort", bad, "element 0 of the client list is written where the client is not known to be the preferred region's: another region may end up first")
+			default:
+				c.ok("kms-v1.sortClients/sort", u.pos(sc.Pos()), "explicit move-to-front: element 0 written only with the preferred region's client")
+			}
+		} else if n != 1 {
 			c.bad("kms-v1.sortClients/sort", u.pos(sc.Pos()), fmt.Sprintf("expected exactly one sort call in sortClients, found %d", n))
 		}
 	}
@@ -238,6 +284,79 @@ func ruleC17PreferredFirst(c *Ctx) {
 		}
 	}
 	sortFuncs(builderFuncs)
+	// lists of regional clients, as webs of SSA values: an append continues the list it appends to (a prepend the list it
+	// spreads), a phi merges its edges
+	parent := map[ssa.Value]ssa.Value{}
+	var find func(v ssa.Value) ssa.Value
+	find = func(v ssa.Value) ssa.Value {
+		if p, ok := parent[v]; ok && p != v {
+			r := find(p)
+			parent[v] = r
+			return r
+		}
+		return v
+	}
+	union := func(a, b ssa.Value) {
+		ra, rb := find(a), find(b)
+		if ra != rb {
+			parent[ra] = rb
+		}
+	}
+	isFresh := func(v ssa.Value) bool {
+		sl, ok := v.(*ssa.Slice)
+		if !ok {
+			return false
+		}
+		a, ok := sl.X.(*ssa.Alloc)
+		return ok && (a.Comment == "slicelit" || a.Comment == "varargs")
+	}
+	for _, bf := range builderFuncs {
+		allInstrs(bf, func(i ssa.Instruction) {
+			switch x := i.(type) {
+			case *ssa.Phi:
+				if strings.HasSuffix(x.Type().String(), "regionalClient") {
+					for _, e := range x.Edges {
+						if !isNilValue(e) {
+							union(x, e)
+						}
+					}
+				}
+			case *ssa.Call:
+				if bi, isB := x.Call.Value.(*ssa.Builtin); isB && bi.Name() == "append" && strings.HasSuffix(x.Type().String(), "regionalClient") {
+					switch {
+					case isFresh(x.Call.Args[0]) && !isFresh(x.Call.Args[1]):
+						union(x, x.Call.Args[1])
+					default:
+						if !isNilValue(x.Call.Args[0]) {
+							union(x, x.Call.Args[0])
+						}
+					}
+				}
+			}
+		})
+	}
+	singles := map[ssa.Value][2]int{} // per list: [appends of one client known preferred, known not preferred]
+	for _, bf := range builderFuncs {
+		allInstrs(bf, func(i ssa.Instruction) {
+			cv, ok := i.(*ssa.Call)
+			if !ok {
+				return
+			}
+			if bi, isB := cv.Call.Value.(*ssa.Builtin); !isB || bi.Name() != "append" || !strings.HasSuffix(cv.Type().String(), "regionalClient") {
+				return
+			}
+			if isFresh(cv.Call.Args[1]) && !isFresh(cv.Call.Args[0]) {
+				cnt := singles[find(cv)]
+				if prefKnown(i, true) {
+					cnt[0]++
+				}
+				if prefKnown(i, false) {
+					cnt[1]++
+				}
+				singles[find(cv)] = cnt
+			}
+		})
+	}
 	for _, bf := range builderFuncs {
 		allInstrs(bf, func(i ssa.Instruction) {
 			cv, ok := i.(*ssa.Call)
@@ -262,9 +381,14 @@ func ruleC17PreferredFirst(c *Ctx) {
 			case fresh(first) && !fresh(second): // prepend
 				ok := prefKnown(i, true)
 				c.check(ok, "kms-v2.Builder.Build/prepend", u.ipos(i), "prepended only on the region == preferredRegion edge", "a client is placed at the front of the client list on a path where it is not known to be the preferred region")
-			case fresh(second) && !fresh(first): // append
-				ok := prefKnown(i, false)
-				c.check(ok, "kms-v2.Builder.Build/append", u.ipos(i), "appended only on the region != preferredRegion edge", "a client is appended to the END of the client list on a path where it may be the preferred region: another region is then tried first")
+			case fresh(second) && !fresh(first): // append of one client
+				// fine on the != preferred edge; on the == preferred edge only into a list that never receives other regions'
+				// clients (the "preferred" half of a partition, concatenated in front below)
+				ok := prefKnown(i, false) || (prefKnown(i, true) && singles[find(cv)][1] == 0)
+				c.check(ok, "kms-v2.Builder.Build/append", u.ipos(i), "appended only on the region != preferredRegion edge (or into the preferred-only list)", "a client is appended to the END of the client list on a path where it may be the preferred region: another region is then tried first")
+			case !fresh(first) && !fresh(second): // concatenation of two lists
+				back := singles[find(second)]
+				c.check(back[0] == 0, "kms-v2.Builder.Build/concat", u.ipos(i), "the list concatenated at the end holds no preferred-region client", "the list that receives the preferred region's client is concatenated BEHIND another list: other regions are then tried first")
 			default:
 				c.undecided("kms-v2.Builder.Build/append", u.ipos(i), "append shape not recognised")
 			}
